@@ -92,11 +92,6 @@ func (s Shape) CalcStridesColMajor() []int {
 	}
 
 	retVal := BorrowInts(len(s))
-	if s.IsVector() {
-		retVal[0] = 1
-		retVal = retVal[:1]
-		return retVal
-	}
 
 	acc := 1
 	for i := 0; i < len(s); i++ {
